@@ -100,7 +100,7 @@ theorem C11_waitActivation {a : Bool} {s s' : St} {t : Tid} {k : Kind} (h : Reac
 theorem C11_decided_by_load {s s' : St} {t : Tid} {e : Ev} {k : WKind} (hs : step s t e = some s')
     (hp : s'.pc t = .wUnlock k true) :
     e = .ld k.side .sc true ∧ s.flag k.side = true ∧ (s.pc t = .wTimedOut k ∨ ∃ f, s.pc t = .wHold k f) := by
-  stepcasesx hs
+  trg_stepcasesx hs
   all_goals (simp [St.setPc] at hp)
   all_goals (try (split at hp <;> simp at hp))
   all_goals (first | (simp_all; done) | grind)
@@ -120,7 +120,7 @@ theorem C11_timed_false {a : Bool} {s : St} {t : Tid} {k : WKind} (h : Reachable
 theorem C11_timed_false_decided {s s' : St} {t : Tid} {e : Ev} {k : WKind} (hs : step s t e = some s')
     (hp : s'.pc t = .wUnlock k false) :
     e = .ld k.side .sc false ∧ s.flag k.side = false ∧ s.pc t = .wTimedOut k := by
-  stepcasesx hs
+  trg_stepcasesx hs
   all_goals (simp [St.setPc] at hp)
   all_goals (try (split at hp <;> simp at hp))
   all_goals (first | (simp_all; done) | grind)
@@ -128,7 +128,7 @@ theorem C11_timed_false_decided {s s' : St} {t : Tid} {e : Ev} {k : WKind} (hs :
 /-- … and it is carried unchanged through the release of the mutex to the return -/
 theorem C11_timed_false_ret {s s' : St} {t : Tid} {e : Ev} {k : WKind} (hs : step s t e = some s')
     (hp : s'.pc t = .wRet k false) : e = .mul k.side ∧ s.pc t = .wUnlock k false := by
-  stepcasesx hs
+  trg_stepcasesx hs
   all_goals (simp [St.setPc] at hp)
   all_goals (try (split at hp <;> simp at hp))
   all_goals (first | (simp_all; done) | grind)
@@ -183,7 +183,7 @@ theorem C11_activate_wakes {a : Bool} {s : St} (h : Reachable a s) {h1 h2 : List
 "about to return true" is through the store and the notify under `triggerLock` -/
 theorem C11_trigger_true {s s' : St} {t : Tid} {e : Ev} (hs : step s t e = some s')
     (hp : s'.pc t = .tRet true) : e = .mul .trig ∧ s.pc t = .tHold .top true true := by
-  stepcasesx hs
+  trg_stepcasesx hs
   all_goals (simp [St.setPc] at hp)
   all_goals (try (split at hp <;> simp at hp))
   all_goals (first | (simp_all; done) | grind)
@@ -215,7 +215,7 @@ theorem C11_inactive_trigger_ret {s s' : St} {t : Tid} {e : Ev} {r : Bool} (hp :
 theorem C11_trigger_false {s s' : St} {t : Tid} {e : Ev} (hs : step s t e = some s')
     (hp : s'.pc t = .tRet false) :
     e = .ld .act .sc false ∧ s.flag .act = false ∧ s.pc t = .tCalled .top ∧ s' = s.setPc t (.tRet false) := by
-  stepcasesx hs
+  trg_stepcasesx hs
   all_goals (simp [St.setPc] at hp)
   all_goals (try (split at hp <;> simp at hp))
   all_goals (first | (simp_all [St.setPc]; done) | grind [St.setPc])
